@@ -15,7 +15,7 @@ LEVEL_TEXT = "Lean 4 theorems: the bookkeeping invariant inv (entries >= 0, bins
 LEVEL_NOTE = "Exact arithmetic in the theorems; the property's floating-point clause (values within a few ulps of any edge are accepted and land in exactly one bin) is decided by the harness's edge probes on the real code (row-wise and vectorised, non-dyadic widths, large offsets), not by a theorem."
 TECHNIQUE = 'Lean 4 proof (invariant by induction over operations) + history correspondence + floating-point edge probes on the implementation'
 LEAN_MODULE = "Hg.Props.C05"
-THEOREMS = ["Hg.C05.inv_zero", "Hg.C05.inv_fill", "Hg.C05.inv_add", "Hg.C05.inv_scale", "Hg.C05.inv_fillAll", "Hg.C05.binIndex_lt"]
+THEOREMS = ["Hg.C05.inv_zero", "Hg.C05.inv_fill", "Hg.C05.inv_add", "Hg.C05.inv_scale", "Hg.C05.inv_fillAll", "Hg.C05.inv_history", "Hg.C05.binIndex_lt"]
 CASES = {"quick": 260, "thorough": 8000}
 RULE = ("operation histories (8..24 ops) over a pool of aggregators of one random tree: row fills, vectorised fills, +, +=, *, "
         "copy(), zero(), JSON round trips, with the invariants evaluated on every live aggregator after every operation; plus, per "
@@ -27,7 +27,7 @@ SHRINK_SPECS = []
 
 
 def gen_params(rng, tier):
-    spec = gen.gen_spec(rng, rng.randint(0, 3))
+    spec = gen.gen_count_sibling_spec(rng) if rng.random() < 0.15 else gen.gen_spec(rng, rng.randint(0, 3))
     n = rng.randint(8, 24)
     hist = []
     handles = ["h0", "h1"]
@@ -49,7 +49,13 @@ def gen_params(rng, tier):
                 if d[gen.STR_COL] is None:
                     d[gen.STR_COL] = "NaN"
                 rows.append([d, rng.choice([1.0, 2.0, 0.5, 0.0])])
-            hist.append(["fillsnp", a, rows, "array"])
+            mode = "array"
+            if gen.scalar_weight_safe(spec) and rng.random() < 0.4:
+                # default / scalar weight, also on an empty batch (outside the region of known finding C03-scalar-weight-count-first)
+                mode = rng.choice(["unit", ["scalar", 2.0], ["scalar", 0.5]])
+                if rng.random() < 0.3:
+                    rows = []
+            hist.append(["fillsnp", a, rows, mode])
         elif k in ("add", "mul", "copy", "zero", "roundtrip"):
             nh = "h%d" % len(handles)
             if len(handles) >= 6:
@@ -84,7 +90,7 @@ def build(p):
             if k == "fills":
                 ops.append(("fills", h[1], [(r[0], r[1]) for r in h[2]]))
             else:
-                ops.append(("fillsnp", h[1], [(r[0], r[1]) for r in h[2]], h[3]))
+                ops.append(("fillsnp", h[1], [(r[0], r[1]) for r in h[2]], h[3] if gen.scalar_weight_safe(spec) else "array"))
         elif k == "add":
             if h[2] not in live or h[3] not in live:
                 continue
